@@ -1299,6 +1299,17 @@ class Interp:
             return E(mn)
         if p == "abs":
             return E(absv)
+        if p in ("floor", "ceil"):
+            def fl(a):
+                def f(t):
+                    if not is_z(t):
+                        return Fraction(math.floor(Fraction(t)) if p == "floor" else math.ceil(Fraction(t)))
+                    tt = toreal(t)
+                    return z3.ToReal(z3.ToInt(tt)) if p == "floor" else -z3.ToReal(z3.ToInt(-tt))
+                return lift_fin(f)(a)
+            return E(fl)
+        if p == "log2":
+            return E(lambda a: div(ctx, slog(ctx, a), slog(ctx, Fraction(2))))
         if p == "sign":
             def sg(a):
                 z = 0 if _is_int(a) else Fraction(0)
